@@ -3462,6 +3462,13 @@ static Token *global_variable(Token *tok, Type *basety, VarAttr *attr) {
     if (!ty->name)
       error_tok(ty->name_pos, "variable name omitted");
 
+    // An object may have any number of tentative definitions
+    // but only one definition with an initializer.
+    VarScope *prev = find_var(ty->name);
+    if (equal(tok, "=") && prev && prev->var && !prev->var->is_function &&
+        !prev->var->is_local && prev->var->is_definition && !prev->var->is_tentative)
+      error_tok(ty->name, "redefinition of '%s'", prev->var->name);
+
     Obj *var = new_gvar(get_ident(ty->name), ty);
     var->is_definition = !attr->is_extern;
     var->is_static = attr->is_static;
